@@ -194,3 +194,21 @@ package oxia
 //@ requires c.writeBatchManager != nil && c.shardManager != nil
 //@ ensures ghost(chancap, result) >= 1
 //@ modifies *
+
+// C20: a list over all the shards closes the result channel only once every per-shard goroutine
+// has finished sending (a send on a closed channel takes the process down): the closer's Wait
+// must have returned nil, i.e. it waits on a context that is never done, and the parties only
+// ever call Done (forbids Fail, structural).
+//@ func clientImpl.List$3
+//@ property C20
+//@ chanstate
+//@ requires wg != nil && ghost(closed, ch) == 0
+//@ assume ghost(nofail, wg) == 1 because the parties of this wait group (List$2) never call Fail: checked by the forbids clause on List$2
+//@ assert at call close#0: callres_Wait_0 == nil
+//@ modifies *
+
+//@ func clientImpl.List$2
+//@ property C20
+//@ trusted
+//@ forbids Fail
+//@ modifies *
